@@ -71,7 +71,7 @@ func init() {
 			"(R12.3) no reference-typed result of an exported function is rooted at an argument's mutable storage. By-value struct parameters spilled to local cells are distinguished from caller memory by the root (alloc vs param). " +
 			"Not decided: mutation through reflection/unsafe (absent from the library apart from the checked string view), and external callees are trusted per the read-only table.",
 		trusted:  []string{"read-only table of external callees (hmac.New key, hash.Write, url.(*URL).Query, strings/strconv/fmt functions, hex/base32 string codecs)"},
-		quick:    []Config{CfgNative},
+		quick:    []Config{CfgNative, CfgWasm},
 		thorough: []Config{CfgNative, CfgWasm, Cfg386},
 		run: func(c *Check, w *World) {
 			tb := NewTB(w)
@@ -81,6 +81,8 @@ func init() {
 			ruleNoParamWrites(c, w, tb, ef, "R12.1", api)
 			ruleNoPkgState(c, w, tb, ef, "R12.2", w.ModuleFuncs(OtpPath))
 			ruleNoAliasingResult(c, w, tb, "R12.3", api)
+			// the service layer must not write the exported defaults or the registry either (a pointer copied from them)
+			ruleRESTStateless(c, w, tb, ef, "R12.REST", false)
 			runControl(c, "R12.1", []string{"ControlWritesParam|param:p:store", "ControlAppendsParam|param:p:append"}, func(sink *Check, cw *World) {
 				ctb := NewTB(cw)
 				ruleNoParamWrites(sink, cw, ctb, NewEffects(ctb), "R12.1", cw.ExportedAPI())
